@@ -19,7 +19,8 @@ EXPLANATION = (
     "are exactly {Ok, UnsupportedValue}, every other fault is returned as ParseError(that fault). "
     "A completed request is queued at once and only pop_front removes it, so requests preceding a fault are delivered. "
     "The incremental parsers refuse a request only for a closed table of (error built, deciding test) pairs -- a line that cannot fit, "
-    "a declared length above the limit, a header-line fault, internal guards -- and nothing outside them builds a ParseError. "
+    "a declared length above the limit, a header-line fault, internal guards -- and nothing outside them builds a ParseError; "
+    "a line found is consumed only by parsing it (RequestLine::try_from / Headers::parse_header_line). "
     "Decides these clauses for all inputs; the whole-stream 'if and only if' is not decided."
 )
 TRUSTED = ["slice indexing, str::from_utf8, String::from", "request::find returns the first occurrence"]
@@ -65,6 +66,8 @@ def run(ctx):
     ctx.guarded("R02.9", "header-line", lambda: c15.line(_Remap(ctx, "R02.9")))
     ctx.rule("R02.10", "the incremental parsers refuse a request only for the enumerated reasons: every path of parse_request_line / parse_headers / parse_body that builds a ParseError is (error, deciding test) in a closed table; propagated failures come from the known sources")
     ctx.guarded("R02.10", "rejections", lambda: rejections(ctx, "R02.10"))
+    ctx.rule("R02.11", "the line parsers go on only by parsing: a line end found in parse_request_line leads on through RequestLine::try_from and WaitingForHeaders, a non-empty header line through Headers::parse_header_line")
+    ctx.guarded("R02.11", "progress", lambda: progress(ctx, "R02.11"))
 
 
 GUARD_ERRORS = {"Overflow", "Underflow", "HeadersWithoutPendingRequest", "BodyWithoutPendingRequest"}
@@ -230,6 +233,39 @@ def rejections(ctx, rule):
             guard = name == conn.READ_BYTES and i[2] == "Overflow" and lf.conds and any(isinstance(x, tuple) and x and x[0] == "field" and x[3] == "read_cursor" for x in subterms(lf.conds[-1][0]))
             ctx.ob(rule, "rejections|outside-the-parsers|%s|%s" % (name.rsplit("::", 1)[-1], i[2]), bool(guard), "%s builds ParseError(%s) itself: outside the three parsers only read_bytes' full-buffer guard refuses input" % (name.rsplit("::", 1)[-1], i[2]), fn.loc(lf.bb))
     ctx.ob(rule, "rejections|outside-the-parsers|floor", m >= 1, "%d ParseError construction(s) outside the three parsers inspected (read_bytes' guard)" % m)
+
+
+def progress(ctx, rule):
+    """The other half of the closed table: how the line parsers go on.  A path of parse_request_line on which a line end was
+    found and that does not fail has handed the line to RequestLine::try_from and moved to WaitingForHeaders; a path of
+    parse_headers on which a non-empty line was found and that does not fail has handed it to Headers::parse_header_line.
+    Anything else consumes input without parsing it (an empty line skipped in front of a request line, a header line
+    dropped)."""
+    facts = ctx.facts
+    n = 0
+    if facts.has_fn(conn.PARSE_RL):
+        fn, lv = leaves(ctx, conn.PARSE_RL)
+        for lf in lv:
+            rk = ret_kind(lf)
+            fo = find_outcome(lf)
+            if rk is None or rk[0] != "Ok" or fo in (None, "none"):
+                continue
+            n += 1
+            parsed = any(e[0] == "call" and e[3] == "request::RequestLine::try_from" for e in lf.events)
+            st = [e for e in lf.events if e[0] == "assign" and e[3] == "(*_1).state"]
+            moved = bool(st) and look(st[-1][4])[0] == "agg" and look(st[-1][4])[2] == "WaitingForHeaders"
+            ctx.ob(rule, "progress|request-line|bb%d" % lf.bb, parsed and moved, "a line end found in parse_request_line leads on only through RequestLine::try_from and state := WaitingForHeaders (parsed: %s, moved: %s)" % (parsed, moved), fn.loc(lf.bb))
+    if facts.has_fn(conn.PARSE_H):
+        fn, lv = leaves(ctx, conn.PARSE_H)
+        for lf in lv:
+            rk = ret_kind(lf)
+            fo = find_outcome(lf)
+            if rk is None or rk[0] != "Ok" or fo != "some_n":
+                continue
+            n += 1
+            parsed = any(e[0] == "call" and e[3] == conn.PHL for e in lf.events)
+            ctx.ob(rule, "progress|header-line|bb%d" % lf.bb, parsed, "a non-empty header line found in parse_headers leads on only through Headers::parse_header_line", fn.loc(lf.bb))
+    ctx.ob(rule, "progress|floor", n >= 2, "%d continuing path(s) of the line parsers inspected (floor 2)" % n)
 
 
 def order(ctx):
